@@ -9,6 +9,21 @@ CLAIMS = {
    "Kernel-checked over the model of cabac_codec.rs/statistical_codec.rs and cabac::traits default methods. The VP8 bool coder's arithmetic (external crate) is transcribed and compared byte for byte, not proved. Model-to-code tie is differential (seeded, measured in the evidence).",
    "Lean 4 proof (induction over the operation list with the pending-default invariant) + model/implementation correspondence check"),
 }
+CLAIMS["C07"] = ("proof",
+   "Lean 4 theorems `write_parse_bits` / `write_parse`: for EVERY byte string the model parser accepts, the model writer applied to the parsed blocks re-emits exactly the consumed prefix (block order and types, BFINAL on the last block only, stored padding and LEN/NLEN, every dynamic-header field and run-length item, every literal and (length, distance) pair including the irregular 258, final padding) and no writer assertion or table index fires. Proved over the length/distance/order tables REGENERATED from preflate_constants.rs on every run, so a table edit that breaks quantize consistency fails the proof. Tie to the code: parse and rewrite requests executed by both the implementation (hook parse_and_rewrite) and the native model driver on seeded streams, plus the implementation's own rewrite(D)=D[..n] oracle over every (length, distance) pair class and all padding patterns.",
+   "DESIGN.md §7 C07",
+   "Kernel-checked over the model of deflate_reader/deflate_writer/huffman_encoding/bit_reader/bit_writer. Symbol decoding is modelled as canonical-code matching; the array-encoded Huffman tree of huffman_helper.rs is tied to it by the correspondence run only. Model-to-code tie is differential (seeded, measured).",
+   "Lean 4 proof (structural induction along the parser with re-emission lemmas) + translator-regenerated tables + model/implementation correspondence check")
+CLAIMS["C14"] = ("proof",
+   "Partial by nature. Proved (Lean, `decide` over the regenerated effect inventory): the library source contains no mutable static, thread-local, lazy/once cell, interior mutability, randomly seeded collection, environment/time/randomness access, pointer-to-integer cast or stray unsafe — only immutable integer tables, the two FFI wrappers, default_boxed tables and debug file helpers (`no_shared_state`, `ffi_surface`, `inventory_covers_anchors`). In the model every public function is a Lean function, so determinism is a typing fact there. Explored, not proved: 16 threads x expand/recreate/decompress/recompress on shared and distinct inputs against the sequential result, repeated calls, a second process.",
+   "DESIGN.md §7 C14",
+   "The inventory is syntactic (regular expressions in tools/extract.py, test code and the hooks file excluded); data-race freedom and interleavings rest on Rust's type system; the thread/process runs are samples.",
+   "Lean 4 proof over a translator-generated effect inventory + concurrent differential runs")
+CLAIMS["C04"] = ("proof",
+   "Lean 4 theorem `gen_eq_ref`: if the current source declares the same FILE_VERSION and wrapper version as the reference build, then every format-relevant constant, table, discriminant order, context array size, parameter-header layout (field order and widths on both the write and the read side), chunk tag, varint shape, hash constant and reshift constant regenerated from the current source equals the copy frozen at the reference build — for all inputs at once, whether or not any sampled input exercises the item. The algorithms that are implicitly part of the format are covered by correspondence over history: a golden corpus written by the reference build (pinned release, before any fix) — 413 (stream, corrections) pairs including in-range perturbed parameter vectors and 90 containers — must be reconstructed bit-exactly by the current recompress_deflate_stream / recreated_zlib_chunks on every run; version constants are evaluated so that an announced format change is not an alarm.",
+   "DESIGN.md §7 C04",
+   "The history quantifier is covered by the frozen constants (proof) and the golden corpus (finite sample written by the real reference build); an algorithmic change that leaves all constants and all corpus items unchanged is not seen.",
+   "Lean 4 proof over translator-regenerated vs frozen format constants + golden corpus cross-decoding")
 NA = {
  "C09": "statistical aggregate (acceptance within 1%, correction size within 3%) over four external compressors relative to a frozen binary: no for-all statement whose Lean proof would decide it; a sampled comparison is not this technique (DESIGN.md §7 C09)",
 }
